@@ -40,7 +40,8 @@ RunVerdict(e, b, r0) ==
    those two clauses of the statement may or may not be counted (lo / hi) *)
 GbcCell(r, bin) == << << r.contig, (r.site \div bin) * bin >>, r.sample >>
 GbcCount(rs, bin, strict, cell) ==
-    Cardinality({ k \in DOMAIN rs : /\ rs[k].r1 /\ ~rs[k].qcfail /\ ~rs[k].dup
+    Cardinality({ k \in DOMAIN rs : /\ (rs[k].r1 \/ (~strict /\ ~rs[k].paired))      \* single-end records: undecided here
+                                      /\ ~rs[k].qcfail /\ ~rs[k].dup
                                       /\ (strict => rs[k].mp \in {"", "unique"})
                                       /\ GbcCell(rs[k], bin) = cell })
 (* a read 2 flagged "proper pair" whose read 1 is not on the same contig of the same BAM (legal SAM, not produced by
